@@ -24,14 +24,14 @@ def run(ctx):
 
 def _mc(ctx):
     # the implementation-shaped search (two loops, two flags, early returns) refines the declarative contract
-    r = ctx.tlc_mc("HttpRouter_MC", R.mc_cfg("C01InitQuick", "C01Reqs", 1, False, PROPS), label="refinement, 10 templates, <=2 entries",
+    r = ctx.tlc_mc("HttpRouter_MC", R.mc_cfg("C01InitQuick", "C01Reqs", 1, False, PROPS), label="refinement, 9 templates, <=2 entries",
                    timeout=600)
     ctx.log("refinement (quick universe): %d transitions" % r.generated)
     if not ctx.quick:
         r = ctx.tlc_mc("HttpRouter_MC", R.mc_cfg("C01InitWide", "C01Reqs", 1, False, PROPS), label="refinement, 26 templates, <=2 entries",
                        timeout=1500)
         ctx.log("refinement (wide universe): %d transitions" % r.generated)
-        r = ctx.tlc_mc("HttpRouter_MC", R.mc_cfg("C01InitDeep", "C01Reqs", 1, False, PROPS), label="refinement, 10 templates, <=3 entries",
+        r = ctx.tlc_mc("HttpRouter_MC", R.mc_cfg("C01InitDeep", "C01Reqs", 1, False, PROPS), label="refinement, 9 templates, <=3 entries",
                        timeout=1500)
         ctx.log("refinement (deep universe): %d transitions" % r.generated)
 
